@@ -41,11 +41,12 @@ func Run(r *ev.Run, replay string) {
 		return
 	}
 	r.MaxSamples = 6
-	r.Rule = "generated npm registries (C06's base universe generator: 5-12 packages x 1-5 versions, scoped names, every requirement kind and range operator, aliases; plus aliases in all four sections with scoped keys and targets, names with an inner '@', bundleDependencies, and node_modules trees of bundled package.json files up to depth 3, some under alias directories, some of versions absent from the registry) served by an in-process gRPC Insights service (bufconn). (a,b) invariants of the four APIClient calls per bundled package and per aliased entry; (c) every registry version resolved through APIClient and through a LocalClient loaded with the independently written encoding, graphs compared by an order-independent encoding; (d) G in {2,8,16} goroutines on one APIClient running seeded scripts of the four calls and whole resolutions, every client call recorded, value-checked against the sequential answer and history-checked (porcupine) per bundling version, in a -race child process. Non-trivial = distinct (registry, root) whose version carries bundles or whose graph has a bundled node."
+	r.Rule = "generated npm registries (C06's base universe generator: 5-12 packages x 1-5 versions, scoped names, every requirement kind and range operator, aliases; plus aliases in all four sections with scoped keys and targets, names with an inner '@', bundleDependencies, and node_modules trees of bundled package.json files up to depth 3, some under alias directories, some of versions absent from the registry, now and then a requirement on a package the registry lacks) served by an in-process gRPC Insights service (bufconn). (a,b) invariants of the four APIClient calls per bundled package and per aliased entry; (c) every registry version resolved through APIClient and through a LocalClient loaded with the independently written encoding, graphs compared by an order-independent encoding; (d) G in {2,8,16} goroutines on one APIClient running seeded scripts of the four calls and whole resolutions, every client call recorded, value-checked against the sequential answer and history-checked (porcupine) per bundling version, in a -race child process. Non-trivial = distinct (registry, root) whose version carries bundles or whose graph has a bundled node."
 	r.Assumptions = []string{
 		"ranges contain no '@' (no valid npm range, version or dist-tag does), so 'npm:name@range' has exactly one reading even when the name has an '@' inside; ranges with '@' and 'npm:name' without a range are not generated",
 		"Requirements are compared as multisets: the property does not promise an order (order that matters to the resolver shows up in the differential)",
-		"a resolution that exhausts the logical step budget through both clients is the npm non-termination shape of C04 and is skipped (counted); Resolve failing through both clients is agreement",
+		"a resolution still asking after the logical step budget (min(200*(versions+10), 3000) client calls) through both clients is skipped and counted (the npm non-termination shapes are C04's business; some long terminating resolutions are cut too); exhausting it through one client only is a violation; Resolve failing through both clients is agreement",
+		"a bundled copy of one of the packages whose node_modules enclose it, and a bundleDependencies entry naming an alias directory, are generated rarely: they are the usual source of budget-exhausting resolutions",
 		"history model = the documented contract of APIClient: a bundled name is found iff the bundling version's Requirements has taken effect on this client; nothing is fetched on demand",
 		"per-call yields and sleeps in the fake service, at the client boundary and at the H2 sites only widen interleavings; no verdict reads a clock (outer watchdogs and the 30 s history-checker limit end in 'inconclusive')",
 		"a race report counts when one of its stacks has a deps.dev/ frame; reports with harness frames only make the run inconclusive",
@@ -74,7 +75,7 @@ func Run(r *ev.Run, replay string) {
 			if c.Kind == "conc" && c.Conc != nil && c.Registry != nil {
 				st := newConcStats()
 				replayConc(c, 25, st)
-				fold(r, st)
+				foldAs(r, st, "witness:")
 			} else {
 				runCase(r, e, c, false)
 			}
@@ -181,8 +182,7 @@ var (
 )
 
 // maxCalls keeps the largest number of client calls of a resolution that ended
-// within the budget (evidence that the budget is far from what terminating
-// resolutions need).
+// within the budget.
 func maxCalls(r *ev.Run, n int64) {
 	maxMu.Lock()
 	if n > maxCallsOK {
